@@ -6,6 +6,7 @@ import (
 	"fmt"
 	"math"
 	"math/bits"
+	"net/http"
 	"net/url"
 	"os"
 	"sort"
@@ -328,12 +329,40 @@ func c19Server() *srv.Planet {
 	return c19Planet
 }
 
+var c19DsCount int
+
+// c19Datasource makes a Datasource for the loaded directory, alternately as a struct literal
+// and through the constructor; the client stamps and tracks what it hands to the library.
 func c19Datasource(p *srv.Planet) *replication.Datasource {
-	return &replication.Datasource{BaseURL: p.BaseURL(), Client: p.Server.Client()}
+	c19DsCount++
+	if c19DsCount%2 == 0 {
+		ds := replication.NewDatasource(p.Client())
+		ds.BaseURL = p.BaseURL()
+		return ds
+	}
+	return &replication.Datasource{BaseURL: p.BaseURL(), Client: p.Client()}
 }
+
+// c19Sess changes how c19Lookup talks to the library for the kinds that need it: one
+// Datasource reused over a directory that advances (Swap inside one epoch instead of Load),
+// or a connection-limited client with a watchdog deadline.
+type c19Sess struct {
+	ds       *replication.Datasource
+	client   *http.Client
+	deadline time.Duration
+	conns    int
+	hung     bool
+}
+
+var c19Session *c19Sess
 
 func c19StateAt(ds *replication.Datasource, stream string, t time.Time) (uint64, *replication.State, error) {
 	ctx := context.Background()
+	if c19Session != nil && c19Session.deadline > 0 {
+		var cancel context.CancelFunc
+		ctx, cancel = context.WithTimeout(ctx, c19Session.deadline)
+		defer cancel()
+	}
 	switch stream {
 	case srv.Minute:
 		n, s, err := ds.MinuteStateAt(ctx, t)
@@ -466,20 +495,30 @@ func c19Lookup(res *fw.Result, p *srv.Planet, sd *srv.Dir, d *c19Dir, q, v int, 
 	tq := c19Rep(t, rep) // same instant, another time.Time value
 	want := d.expected(t)
 	budget, rng, missing := d.budget(t, windowed)
-	p.Load(sd, budget, d.prefix)
-	got, st, err := c19StateAt(c19Datasource(p), d.stream, tq)
+	run := func() (uint64, *replication.State, error) {
+		if c19Session != nil && c19Session.ds != nil {
+			p.Swap(sd, budget) // same epoch, same base URL, same Datasource
+			return c19StateAt(c19Session.ds, d.stream, tq)
+		}
+		p.Load(sd, budget, d.prefix)
+		if c19Session != nil && c19Session.client != nil {
+			return c19StateAt(&replication.Datasource{BaseURL: p.BaseURL(), Client: c19Session.client}, d.stream, tq)
+		}
+		return c19StateAt(c19Datasource(p), d.stream, tq)
+	}
+	got, st, err := run()
 	count, log, unexpected, perSeq := p.Observed()
 	// A lookup that fails inside the HTTP client's transport (not with a status the server
 	// sent) while the server stayed within the budget is run again, in a fresh epoch: net/http
 	// can hand the cancellation error of an earlier, cancelled request to an unrelated later
 	// request that was given the same connection. A failure that is the library's own doing
 	// repeats; only one that persists is judged.
-	for try := 0; try < 2 && c19TransportError(err) && count <= budget && len(unexpected) == 0; try++ {
+	for try := 0; try < 2 && c19TransportError(err) && !errors.Is(err, context.DeadlineExceeded) && count <= budget && len(unexpected) == 0; try++ {
 		res.Add("lookups_repeated_after_transport_error", 1)
-		p.Load(sd, budget, d.prefix)
-		got, st, err = c19StateAt(c19Datasource(p), d.stream, tq)
+		got, st, err = run()
 		count, log, unexpected, perSeq = p.Observed()
 	}
+	handed, closedBodies := p.Bodies()
 
 	k := len(d.present)
 	obs := &c19LookupObs{Stream: d.stream, Present: c19SetString(d.present), Query: tq.Format(time.RFC3339Nano) + " (" + c19Reps[rep] + ")",
@@ -495,7 +534,22 @@ func c19Lookup(res *fw.Result, p *srv.Planet, sd *srv.Dir, d *c19Dir, q, v int, 
 		}
 		return o
 	}
+	// every response body handed to the library must have been closed when the lookup
+	// returns: an unclosed body keeps its connection checked out (net/http), so with any
+	// connection-limited client the search stops making progress after a few missing files
+	if handed != closedBodies {
+		c19Violate(res, inKey+"/unclosed", fmt.Sprintf("%d of %d response bodies were not closed when the lookup returned (each keeps a connection); S={%s}", handed-closedBodies, handed, obs.Present), detail())
+	}
+	res.Add("response_bodies_tracked", handed)
 	switch {
+	case err != nil && errors.Is(err, context.DeadlineExceeded) && c19Session != nil && c19Session.deadline > 0:
+		c19Session.hung = true
+		if handed != closedBodies {
+			c19Violate(res, inKey+"/hang", fmt.Sprintf("lookup did not terminate within %s (normally milliseconds) with a client limited to %d connections: %d requests seen, %d response bodies unclosed; S={%s} t=%s",
+				c19Session.deadline, c19Session.conns, count, handed-closedBodies, obs.Present, obs.Query), detail())
+		} else {
+			res.Inconc("lookup hit the %s watchdog with every body closed (%d requests): %s", c19Session.deadline, count, inKey)
+		}
 	case len(unexpected) > 0:
 		c19Violate(res, inKey+"/path", fmt.Sprintf("request outside the planet layout: %s", unexpected[0]), detail())
 	case count > budget:
@@ -590,6 +644,16 @@ func c19Cases(tier string, seed uint64) []fw.Case {
 	for i := 0; i < nSkew; i++ {
 		cs = append(cs, fw.Case{Kind: "skew", Seed: gen.Sub(seed, "c19skew", i), P: map[string]int64{"stream": int64(i % 4), "profile": int64(i / 4 % len(c19SkewProfiles))}})
 	}
+	nGrow, nConn := 16, 8
+	if tier == "thorough" {
+		nGrow, nConn = 200, 48
+	}
+	for i := 0; i < nGrow; i++ {
+		cs = append(cs, fw.Case{Kind: "grow", Seed: gen.Sub(seed, "c19grow", i), P: map[string]int64{"stream": int64(i % 4)}})
+	}
+	for i := 0; i < nConn; i++ {
+		cs = append(cs, fw.Case{Kind: "conn", Seed: gen.Sub(seed, "c19conn", i), P: map[string]int64{"stream": int64(i % 4), "conns": int64(1 + i/4%2)}})
+	}
 	for i := 0; i < nFmt; i++ {
 		cs = append(cs, fw.Case{Kind: "format", Seed: gen.Sub(seed, "c19fmt", i), P: map[string]int64{"stream": int64(i % 4)}})
 	}
@@ -612,6 +676,10 @@ func c19Exec(c fw.Case) *fw.Result {
 		c19ExecOffset(res, p, stream, c.Seed, int(c.Int("site")))
 	case "skew":
 		c19ExecSkew(res, p, stream, c.Seed, int(c.Int("profile")))
+	case "grow":
+		c19ExecGrow(res, p, stream, c.Seed)
+	case "conn":
+		c19ExecConn(res, p, stream, c.Seed, int(c.Int("conns")))
 	case "format":
 		c19ExecFormat(res, p, stream, c.Seed)
 	case "data":
@@ -1008,6 +1076,170 @@ func c19ExecSkew(res *fw.Result, p *srv.Planet, stream string, seed uint64, pi i
 	res.Sample = sample
 }
 
+// grow: one Datasource value is used for several lookups while the directory of the server
+// advances between them, as it does on the live planet: states are appended (the current
+// state file is rewritten), a former gap is filled. The base URL stays the same (one epoch,
+// Swap). Every call has to answer from the directory as it is at the time of the call.
+func c19ExecGrow(res *fw.Result, p *srv.Planet, stream string, seed uint64) {
+	r := gen.New(seed, "c19grow")
+	defer func() { c19Session = nil }()
+	var sample any
+	for di := 0; di < 3; di++ {
+		n0 := uint64(r.Range(2, 60))
+		tmpl := c19Dir{stream: stream, tsid: r.Uint64() | 1, step: 60, min: 1, altFmt: true}
+		if r.Chance(0.3) {
+			tmpl.prefix = r.PickS(c19Prefixes...)
+		}
+		missing := map[uint64]bool{}
+		density := []float64{0, 0, 0.1, 0.3}[r.Intn(4)]
+		for x := uint64(1); x < n0; x++ {
+			if r.Chance(density) {
+				missing[x] = true
+			}
+		}
+		var gap uint64 // a gap that is filled later
+		if n0 > 3 && r.Chance(0.6) {
+			gap = uint64(r.Range(2, int(n0)-1))
+			missing[gap] = true
+		}
+		top := n0
+		ds := replication.NewDatasource(p.Client())
+		if r.Chance(0.25) {
+			ds = &replication.Datasource{Client: p.Client()}
+		}
+		p.Load(&srv.Dir{Stream: stream, States: map[uint64]srv.StateFile{}, Current: 1}, 1, tmpl.prefix)
+		ds.BaseURL = p.BaseURL()
+		c19Session = &c19Sess{ds: ds}
+		hist := ""
+		steps := r.Range(2, 4)
+		for step := 0; step <= steps; step++ {
+			var added []uint64
+			if step > 0 {
+				// the directory advances
+				for a := r.Range(1, 5); a > 0; a-- {
+					top++
+					if a > 1 && r.Chance(0.2) {
+						missing[top] = true
+					} else {
+						added = append(added, top)
+					}
+				}
+				if gap != 0 && r.Chance(0.5) {
+					delete(missing, gap)
+					added = append(added, gap)
+					gap = 0
+				}
+			}
+			d := tmpl
+			d.present = nil
+			for x := uint64(1); x <= top; x++ {
+				if !missing[x] || x == top {
+					d.present = append(d.present, x)
+				}
+			}
+			sd := d.serverDir()
+			k := len(d.present)
+			hist += "|" + c19SetString(d.present)
+			// a direct look at the current state and at the new files between the searches
+			if step > 0 && r.Chance(0.7) {
+				p.Swap(sd, 8)
+				cn, cst, cerr := c19CurrentState(ds, stream)
+				_, log, _, _ := p.Observed()
+				if cerr != nil || cn != d.current() || cst == nil || !cst.Timestamp.Equal(d.timeOf(d.current())) {
+					c19Violate(res, fmt.Sprintf("C19/grow/stream=%s/ts=%x/hist=%s/current", stream, d.tsid, hist),
+						fmt.Sprintf("after the directory advanced to {%s} the current state is reported as %d (%+v, err %v), the server says %d", c19SetString(d.present), cn, cst, cerr, d.current()), log)
+				}
+				res.Eval("grow/" + stream + "/current-between")
+			}
+			qs := map[int]bool{2 * k: true, 2*k - 1: true, r.Intn(2*k + 1): true, r.Intn(2*k + 1): true}
+			if k > 1 {
+				qs[2*k-2] = true
+			}
+			for _, a := range added { // queries at and just below the new files
+				i := sort.Search(k, func(i int) bool { return d.present[i] >= a })
+				qs[2*i+1] = true
+				qs[2*i] = true
+			}
+			var order []int
+			for q := range qs {
+				if q >= 0 && q <= 2*k {
+					order = append(order, q)
+				}
+			}
+			sort.Ints(order)
+			for _, q := range order {
+				v := r.Intn(3) + 3*r.Intn(len(c19Reps))
+				key := fmt.Sprintf("C19/lookup/stream=%s/ts=%x/step=%d/grow=%d/hist=%s/t=q%d.%d", stream, d.tsid, d.step, step, hist, q, v)
+				obs := c19Lookup(res, p, sd, &d, q, v, key, fmt.Sprintf("grow%d", min(step, 2)), false)
+				if sample == nil && step == 1 && q == 2*k {
+					sample = map[string]any{"directories_so_far": hist, "added": added, "lookup": obs}
+				}
+			}
+			res.Add("directory_advances", 1)
+		}
+		c19Session = nil
+	}
+	res.Sample = sample
+}
+
+// c19NotFoundPage is what a web server sends with a 404.
+const c19NotFoundPage = "<html>\r\n<head><title>404 Not Found</title></head>\r\n<body>\r\n<center><h1>404 Not Found</h1></center>\r\n<hr><center>nginx/1.18.0 (Ubuntu)</center>\r\n</body>\r\n</html>\r\n"
+
+// conn: the client given to the library may hold only one or two connections to the server,
+// and the server sends an error page with its 404s (as real servers do). A response body that
+// is not closed keeps its connection, so a search that leaks the bodies of the missing files it
+// steps over stops making progress after one or two of them. The deciding observation is the
+// deterministic one (bodies handed out vs closed at return); the context deadline, far above
+// the milliseconds a lookup takes, only ends a lookup that is stuck.
+func c19ExecConn(res *fw.Result, p *srv.Planet, stream string, seed uint64, conns int) {
+	r := gen.New(seed, "c19conn")
+	client := p.LimitedClient(conns)
+	defer client.CloseIdleConnections()
+	c19Session = &c19Sess{client: client, deadline: 15 * time.Second, conns: conns}
+	defer func() { c19Session = nil }()
+	var sample any
+	for di := 0; di < 3 && !c19Session.hung; di++ {
+		n := uint64(r.Range(20, 200))
+		d := &c19Dir{stream: stream, tsid: r.Uint64() | 1, step: 60, min: 1, altFmt: true}
+		missing := map[uint64]bool{}
+		density := []float64{0, 0.05, 0.3}[r.Intn(3)]
+		for x := uint64(1); x < n; x++ {
+			if r.Chance(density) {
+				missing[x] = true
+			}
+		}
+		for g := r.Range(1, 3); g > 0; g-- {
+			c19GapRuns(r, missing, 1, n, uint64(r.Range(1, int(n))))
+		}
+		if r.Chance(0.5) {
+			delete(missing, 1)
+		}
+		for x := uint64(1); x <= n; x++ {
+			if !missing[x] || x == n {
+				d.present = append(d.present, x)
+			}
+		}
+		sd := d.serverDir()
+		sd.NotFoundBody = []byte(c19NotFoundPage)
+		if r.Chance(0.3) {
+			sd.NotFoundBody = []byte(strings.Repeat(c19NotFoundPage, 60)) // a 10 KiB error page
+		}
+		k := len(d.present)
+		for _, q := range c19Positions(r, k, 10) {
+			if c19Session.hung {
+				break
+			}
+			v := r.Intn(3) + 3*r.Intn(len(c19Reps))
+			key := fmt.Sprintf("C19/lookup/stream=%s/ts=%x/step=%d/conns=%d/S=%s/t=q%d.%d", stream, d.tsid, d.step, conns, c19SetString(d.present), q, v)
+			obs := c19Lookup(res, p, sd, d, q, v, key, fmt.Sprintf("conn%d", conns), false)
+			if sample == nil && obs.Requests > 6 {
+				sample = map[string]any{"max_conns_per_host": conns, "not_found_body_bytes": len(sd.NotFoundBody), "lookup": obs}
+			}
+		}
+	}
+	res.Sample = sample
+}
+
 var c19EdgeTimes = []time.Time{
 	time.Date(2016, 7, 16, 6, 14, 2, 0, time.UTC),
 	time.Date(2016, 7, 2, 22, 46, 1, 422137422, time.UTC),
@@ -1364,7 +1596,7 @@ func init() {
 			"(current always present) x every query position (before first, at each, between each, after last) — independent of the seed. " +
 			"rand: ranges up to 400 with random density and gap runs next to the probe sequence of a binary search; offset: windows at high " +
 			"offsets crossing directory levels with everything below missing; format: single state files in each documented layout; data: " +
-			"sequence-numbered data files; skew: gap-free and sparse-gap ranges of 1 000 to 100 000 states with skewed timestamp assignments (pauses, exponential spacing, clusters, bursts). Minute state files have realistic sizes (txnActiveList up to thousands of ids, 1-64 KiB), key orders, unknown keys, comments, CRLF (format); base URLs with percent-escaped path prefixes. Signature = kind/stream/log2(range)/missing-count class/query position class (for queries equal to a state's time also the representation of the instant: UTC, time.Unix, fixed zones, Local, monotonic reading)/first-state present or " +
+			"sequence-numbered data files; skew: gap-free and sparse-gap ranges of 1 000 to 100 000 states with skewed timestamp assignments (pauses, exponential spacing, clusters, bursts). Minute state files have realistic sizes (txnActiveList up to thousands of ids, 1-64 KiB), key orders, unknown keys, comments, CRLF (format); base URLs with percent-escaped path prefixes; grow: one Datasource reused while the directory advances inside one base URL; conn: connection-limited client and 404s with bodies; every response body handed to the library is tracked. Signature = kind/stream/log2(range)/missing-count class/query position class (for queries equal to a state's time also the representation of the instant: UTC, time.Unix, fixed zones, Local, monotonic reading)/first-state present or " +
 			"missing (prefix-only or scattered gaps); a signature is non-trivial when a lookup was actually executed against the fake server.",
 		Assumptions: []string{
 			"The fake server models the planet layout from its documentation: /replication/<stream>/state.txt (state.yaml for changesets), NNN/NNN/NNN.state.txt, .osc.gz / .osm.gz; timestamps strictly increase with the sequence number; the current state is the newest present file.",
@@ -1374,6 +1606,7 @@ func init() {
 			"Offset windows whose missing prefix is longer than 5000 files are not queried at or before their first present state: the property lets an exact search step over every missing file there (millions of requests), so neither outcome could be judged cheaply.",
 			"Not asserted: order or exact number of probes, error texts, which requests are repeated, behaviour for directories whose timestamps are not increasing or whose state.txt names a missing file, sequence numbers >= 10^9, a nil Datasource.Client.",
 			"Every lookup carries its own epoch in the base URL (/e<n>/…); requests arriving after their lookup returned (cancelled in flight) are counted, not judged. A lookup failing with a transport-level error is repeated up to twice and judged only if the failure persists.",
+			"Every response body must be closed when a lookup returns (net/http: an unclosed body keeps its connection). The 15 s deadline of the conn kind is a watchdog: a lookup that hits it counts as not terminating only if bodies were left unclosed, otherwise it is inconclusive.",
 			"A lookup that errors is a violation only because every response of the fake server within the budget is a 200 or a 404 in the documented layout.",
 		},
 		Cases:       c19Cases,
